@@ -369,4 +369,36 @@ def c14doc : List Tok :=
    .stop delayName, .start ⟨"jabber:client", "message"⟩ [], .stop ⟨"jabber:client", "message"⟩, .stop forwardedName]
 
 
+theorem request_depth : ∀ (ts : List Tok) (nw : Bool) (d e : Nat),
+    depthAfter d ts = some e → depthAfter d (request nw ts) = some e := by
+  intro ts
+  induction ts with
+  | nil => intro nw d e h; simpa [request] using h
+  | cons t ts ih =>
+    intro nw d e h
+    cases t with
+    | start n as =>
+      simp only [depthAfter] at h
+      simp only [request, depthAfter]
+      exact ih _ (d + 1) e h
+    | stop n =>
+      cases d with
+      | zero => simp [depthAfter] at h
+      | succ d =>
+        simp only [depthAfter] at h
+        simp only [request]
+        by_cases hm : isMessage n = true
+        · simp only [hm, if_true]
+          cases nw
+          · simp only [requestEl, Bool.false_eq_true, if_false, List.cons_append, List.nil_append, depthAfter]
+            exact ih false d e h
+          · simp only [if_true, List.nil_append, depthAfter]
+            exact ih false d e h
+        · simp only [hm, depthAfter]
+          exact ih nw d e h
+    | chars s => simp only [depthAfter] at h; simp only [request, depthAfter]; exact ih nw d e h
+    | comment s => simp only [depthAfter] at h; simp only [request, depthAfter]; exact ih nw d e h
+    | procInst t i => simp only [depthAfter] at h; simp only [request, depthAfter]; exact ih nw d e h
+    | directive s => simp only [depthAfter] at h; simp only [request, depthAfter]; exact ih nw d e h
+
 end XmppModel.Unwrap
